@@ -9,6 +9,7 @@
 //   - inside the write closure the merged pipeline error is checked with `<-mergedErrC`, that
 //     branch returns a non-nil error, and the point counter / id counter are written only after
 //     that check (success path), nowhere else.
+//
 // A function or statement the tool cannot find is a broken tie: exit status 1, never a guess.
 package main
 
